@@ -40,7 +40,7 @@ type Slice struct {
 type Blob struct {
 	ID       int
 	Len      *sym.Term // 64-bit
-	IsNil    bool
+	IsNil    *sym.Term // Bool; IsNil implies Len == 0
 	Attached Value // a decoded protobuf message value (Struct) or nil
 	AttachT  types.Type
 }
